@@ -256,6 +256,50 @@ def mqtt_send_case(ctx, case: dict) -> None:
                                                       f"done ({log['published_later']} after further loop iterations)", case)
 
 
+async def reuse_case(ctx, case: dict) -> None:
+    """An application keeps one Message object, changes its fields and sends it again: every send must carry the
+    fields the object has at the moment of the call."""
+    from aiomysensors.model.message import Message
+    from aiomysensors.model.node import Child, Node
+
+    version = case["version"]
+    gateway, transport = new_gateway(version)
+    stepper = Stepper(gateway, transport)
+    gateway.nodes[DEST] = Node(DEST, 17, "2.0", children={0: Child(0, 3), 7: Child(7, 3)}, sleeping=case["sleeping"])
+    message = Message(DEST, 0, 1, 0, 2, "first")
+    expected = []
+    for change in case["changes"]:
+        for attr, value in change.items():
+            setattr(message, attr, value)
+        expected.append(";".join(str(x) for x in (message.node_id, message.child_id, message.command, message.ack,
+                                                  message.message_type, message.payload)) + "\n")
+        kind, exc = await stepper.tx(message)
+        if kind == "error":
+            ctx.violation("send-raised", f"re-sending a changed Message raised {type(exc).__name__}", case)
+            await stepper.close()
+            return
+    proto = gateway.protocol.VERSION
+    if case["sleeping"] and spec.is2x(proto):
+        wake = 32 if proto == "2.2" else 22
+        await stepper.rx(f"{DEST};255;3;0;{wake};1\n")
+    writes = transport.take_writes()
+    ctx.case(("reuse", version, case["sleeping"], repr(case["changes"])), sample=case)
+    ctx.clause("reused-message-object")
+    if case["sleeping"]:
+        # per key only the latest value has to go out (C07); every written line must be one of the lines sent
+        latest = {}
+        for line in expected:
+            parts = line.split(";")
+            latest[(parts[0], parts[1], parts[4])] = line
+        if spec.is2x(proto) and sorted(writes) != sorted(latest.values()):
+            ctx.violation("reused-message-stale-line", f"one Message object changed and re-sent {len(expected)} times to a sleeping "
+                                                       f"node: wake wrote {writes}, expected {sorted(latest.values())}", case)
+    elif writes != expected:
+        ctx.violation("reused-message-stale-line", f"one Message object changed and re-sent: wrote {writes}, expected {expected}",
+                      case)
+    await stepper.close()
+
+
 async def pair_case(ctx, case: dict) -> None:
     """Two sends to a sleeping destination before its wake: neither may be silently discarded
     (a set superseded by a newer set for the same child and type is the only stated exception, C07)."""
@@ -366,7 +410,9 @@ def cases(ctx):
 
 
 def run_case(ctx, case: dict) -> None:
-    if case.get("kind") == "mqtt-send":
+    if case.get("kind") == "reuse":
+        arun(reuse_case(ctx, case))
+    elif case.get("kind") == "mqtt-send":
         mqtt_send_case(ctx, case)
     elif case.get("kind") == "fault-send":
         arun(fault_send_case(ctx, case))
@@ -389,6 +435,18 @@ def run(ctx) -> None:
                     if ctx.mine():
                         arun(fault_send_case(ctx, {"kind": "fault-send", "version": version, "dest": dest, "fields": fields,
                                                    "buffered": buffered}))
+        change_sets = [[{}, {"payload": "second"}], [{}, {"payload": "second"}, {"payload": "third", "ack": 1}],
+                       [{}, {"child_id": 7}, {"message_type": 3}], [{}, {}, {"payload": ""}],
+                       [{}, {"payload": "x"}, {"payload": "first"}]]
+        for version in [None, *VERSIONS]:
+            for sleeping in (False, True):
+                for changes in change_sets:
+                    if sleeping and any(set(c) - {"payload", "ack"} for c in changes):
+                        # a parked command is the Message object itself; changing the KEY fields of an object that is
+                        # currently parked is outside what the statement describes (observed, not judged)
+                        continue
+                    if ctx.mine():
+                        arun(reuse_case(ctx, {"kind": "reuse", "version": version, "sleeping": sleeping, "changes": changes}))
         for version in (None, "2.0", "2.2"):
             for fields in ([DEST, 0, 1, 0, 2, "m"], [DEST, 0, 1, 1, 2, "m"], [DEST, 255, 3, 1, 13, ""], [DEST, 0, 2, 1, 2, ""],
                            [DEST, 255, 3, 0, 18, ""]):
